@@ -41,7 +41,7 @@ echo "== demo WITH the change =="
 run_demo; WITH=$?
 echo "SUMMARY demo without=$WITHOUT with=$WITH"
 for C in $CHECKS; do
-  out=$(VERIF_REPO="$W" "$(dirname "$0")/check" "$C" --tier "$TIER" --replay /dev/null 2>&1)
+  out=$(VERIF_REPO="$W" VERIF_EVIDENCE_SKIP=1 "$(dirname "$0")/check" "$C" --tier "$TIER" --replay /dev/null 2>&1)
   echo "== check $C ($TIER) exit=$? =="
   echo "$out" | grep -E "VIOLATION|HARNESS|BUILD-FAILED|tier=" | cut -c1-400 | head -6
 done
